@@ -29,6 +29,9 @@ type Opt struct {
 	Width     int  `json:"width,omitempty"`
 	MaxDepth  int  `json:"maxdepth,omitempty"`
 	Align     bool `json:"align,omitempty"`
+	// KeepsEmpty is set by a check for the writers that keep an empty, non-nil container under
+	// OmitNil alone (the oj writers on simple and gen data); it is not part of a case
+	KeepsEmpty bool `json:"-"`
 }
 
 func (w Opt) Options() ojg.Options {
